@@ -60,6 +60,9 @@ def scenarios(n_max=3, cores=(1, 2), ncancel=1, time_limits=True, vias=("api",),
             # the script left a command in its process group that ignores SIGTERM (e.g. `(trap '' TERM; exec tool) & wait`)
             out.append(dict(cores=c, tasks=[dict(deps=[], codes=(0,), stubborn=True), dict(deps=[0], codes=(0,))], ops=[("enq", 0), ("enq", 1), ("cancel", 0)], via="api"))
             out.append(dict(cores=c, tasks=[dict(deps=[], codes=(0,), stubborn=True, time_limit=5.0), dict(deps=[], codes=(0,))], ops=[("enq", 0), ("enq", 1)], via="api"))
+        # the pool is shut down (Scheduler.shutdown) while one task runs, one waits for a core and one waits for a dependency
+        for c in (1, 2):
+            out.append(dict(cores=c, tasks=[dict(deps=[], codes=(0, 1)), dict(deps=[], codes=(0,)), dict(deps=[0], codes=(0,))], ops=[("enq", 0), ("enq", 1), ("enq", 2), ("shutdown",)], via="api", no_probe=True))
         # a dependency id the pool never issued: a number, and the string form of a live task's id
         out.append(dict(cores=2, tasks=[dict(deps=[], codes=(0, 1)), dict(deps=[], codes=(0,), extra_deps=("0",)), dict(deps=[1], codes=(0,))], ops=[("enq", 0), ("enq", 1), ("enq", 2)], via="api"))
         out.append(dict(cores=2, tasks=[dict(deps=[], codes=(0,)), dict(deps=[0], codes=(0,), extra_deps=(77,)), dict(deps=[1], codes=(0,))], ops=[("enq", 0), ("enq", 1), ("enq", 2)], via="server"))
